@@ -270,6 +270,7 @@ func (fc *FnCtx) loopHeader(h *ssa.BasicBlock, phiEntry map[*ssa.Phi]string) {
 		env := fc.envAt(preState, fc.headerVars(h, phiEntry))
 		env.visKey = fc.loopVisKey(h)
 		env.loopPre = preState
+		env.iterPre = preState
 		for i, inv := range ls.Invariants {
 			t := env.boolExpr(inv.Expr)
 			fc.oblige("inv-entry", fmt.Sprintf("L%d.%d", n, i+1), h.Instrs[0].Pos(), t, inv.Src, inv.Name)
@@ -342,6 +343,11 @@ func (fc *FnCtx) loopHeader(h *ssa.BasicBlock, phiEntry map[*ssa.Phi]string) {
 			fc.loopPre = map[*ssa.BasicBlock]*State{}
 		}
 		fc.loopPre[h] = preState
+		env.iterPre = fc.cur
+		if fc.iterPre == nil {
+			fc.iterPre = map[*ssa.BasicBlock]*State{}
+		}
+		fc.iterPre[h] = fc.cur.clone()
 		for _, inv := range ls.Invariants {
 			fc.assume(env.boolExpr(inv.Expr), "loop invariant "+inv.Src)
 		}
@@ -375,6 +381,7 @@ func (fc *FnCtx) loopStep(b, h *ssa.BasicBlock) {
 		env := fc.envAt(fc.cur, fc.headerVars(h, phiBack))
 		env.visKey = fc.loopVisKey(h)
 		env.loopPre = fc.loopPre[h]
+		env.iterPre = fc.iterPre[h]
 		for i, inv := range ls.Invariants {
 			t := env.boolExpr(inv.Expr)
 			fc.oblige("inv-step", fmt.Sprintf("L%d.%d", n, i+1), b.Instrs[len(b.Instrs)-1].Pos(), t, inv.Src, inv.Name)
